@@ -17,7 +17,7 @@ class Ctx(object):
         self.T = F.Tables(self.mods)
         self.E = Engine(self.src)
         self.E.explore_budget_s = 300 if run.tier == "quick" else 1500
-        self.E.explore_total_budget_s = 600 if run.tier == "quick" else 6000
+        self.E.explore_total_budget_s = 400 if run.tier == "quick" else 6000
         from pyvc import effects, anycoll   # noqa: F401  (anycoll installs the witness rule for loops over unbounded collections)
         effects.install(self.E)
         self.E.lower_hints = list(self.T.RELEASE_TYPES)
